@@ -22,6 +22,7 @@ DESIGN_REF = 'DESIGN.md §3 C10'
 def gen_ops(tier, rng):
     return gens.uncompact_ops(tier, rng)
 
+@common.guarded(lambda **a: f"uncompact({a['cells'][:6]}{'...' if len(a['cells']) > 6 else ''}, {a['t']})", lambda **a: {'t': a['t'], 'cells': a['cells']})
 def check_case(drv, t, cells, fails):
     ser, cp, ci = drv.ser, drv.cp, drv.ci
     arg = list(cells)
